@@ -66,7 +66,7 @@ class C03(core.Prop):
 
     def gen_case(self, rng, i):
         return {'examples': rx.gen_examples(rng), 'opts': rx.gen_opts(rng), 'size': rx.gen_size(rng),
-                'seed': rng.choice([None, None, 0, 1, 7, 12345]), 'form': rng.choice(['list', 'list', 'dict', 'series'])}
+                'seed': rng.choice([None, None, 0, 1, 7, 12345]), 'form': rng.choice(['list', 'list', 'dict', 'dict0', 'series'])}
 
     # correspondence: the Lean pipeline against rexpy.extract, for cases where no sampling happens
     def _nosampling(self, case):
@@ -85,7 +85,7 @@ class C03(core.Prop):
     def model_ops(self, case):
         if not rx.modelled(case['examples'], case['opts']):
             return []
-        form = 'dict' if case['form'] == 'dict' else 'list'
+        form = case['form'] if case['form'] in ('dict', 'dict0') else 'list'
         if rx.nosampling(case['examples'], case['opts'], case['size']):
             return [rx.model_extract_op(case['examples'], case['opts'], form, case['size'])]
         # with sampling: the loop model, replaying what random.sample returned in the run it is compared with
